@@ -11,6 +11,6 @@ Definition rename_step (r : string -> string) (s : pstep) : pstep :=
   match s with
   | PProject ops gb => PProject (map (rename_sop r) ops) (map r gb)
   | PWExtend ops part order rev => PWExtend (map (rename_sop r) ops) (map r part) (map r order) (map r rev)
-  | PJoin how on => PJoin how (map r on)
+  | PJoin how on nk => PJoin how (map r on) nk
   end.
 Definition rename_frame {A} (r : string -> string) (f : frame A) : frame A := map (fun na => (r (fst na), snd na)) f.
